@@ -264,8 +264,10 @@ class SpecEval:
             for (n, t) in vs:
                 ts = resolve_type(self.prog, self.pkg, t)
                 qvars.append((n, self.vc.sort_of(ts), ts))
-            self.vc.register_qa({'vars': qvars, 'body': e[2], 'pkg': self.pkg, 'env': dict(self.env), 'st': self.st,
-                                 'old': self.old, 'old_env': self.old_env, 'ante': list(self.ante), 'guard': self.guard, 'qvars': dict(self.qvars),
+            self.vc.register_qa({'vars': qvars, 'body': e[2], 'pkg': self.pkg, 'env': dict(self.env),
+                                 # (snapshots: the executor updates its state object in place, and instances are built later)
+                                 'st': self.st.copy() if self.st is not None else None,
+                                 'old': self.old.copy() if self.old is not None else None, 'old_env': self.old_env, 'ante': list(self.ante), 'guard': self.guard, 'qvars': dict(self.qvars),
                                  'rec_level': self.rec_level})
             named_qa = True
         else:
@@ -528,6 +530,46 @@ class SpecEval:
     def b_arr(self, args):
         x = self.eval(args[0])
         return V('(s.arr %s)' % x.term, 'Int', 'int')
+
+    def _map_heaps(self, m):
+        if self.st is None or m.ts is None or self.prog.under(m.ts)['k'] != 'map':
+            self.err('not a map')
+        from .vcgen import san
+        xtd = self.prog.under(m.ts)
+        ks, vs = self.vc.sort_of(xtd['key']), self.vc.sort_of(xtd['elem'])
+        hn = 'M.%s.%s' % (san(ks), san(vs))
+        self.vc.heap_sorts[hn + '.has'] = 'Arr:Map:%s>Bool' % ks
+        self.vc.heap_sorts[hn + '.val'] = 'Arr:Map:%s>%s' % (ks, vs)
+        return xtd, ks, vs, hn
+
+    def _key_term(self, ks, k):
+        if not self.mentions_bound(k.term) and (ks, k.term) not in self.vc.inst_terms:
+            self.vc.inst_terms.append((ks, k.term))
+
+    def b_haskey(self, args):
+        """haskey(m, k): the map m holds an entry for key k"""
+        m, k = self.eval(args[0]), self.eval(args[1])
+        xtd, ks, vs, hn = self._map_heaps(m)
+        self._key_term(ks, k)
+        return V('(select (select %s %s) %s)' % (self.st.get(hn + '.has', 'Arr:Map:%s>Bool' % ks), m.term, k.term), 'Bool', 'bool')
+
+    def b_mapval(self, args):
+        """mapval(m, k): the value m holds for key k (meaningful where haskey(m, k))"""
+        m, k = self.eval(args[0]), self.eval(args[1])
+        xtd, ks, vs, hn = self._map_heaps(m)
+        self._key_term(ks, k)
+        return V('(select (select %s %s) %s)' % (self.st.get(hn + '.val', 'Arr:Map:%s>%s' % (ks, vs)), m.term, k.term), vs, xtd['elem'])
+
+    def b_visited(self, args):
+        """visited(m, k): the range statement over map m (the latest one executed) has already produced key k"""
+        m, k = self.eval(args[0]), self.eval(args[1])
+        xtd, ks, vs, hn = self._map_heaps(m)
+        its = self.vc.__dict__.get('mapiters', {})
+        if m.term not in its:
+            self.err('visited(m, k): no range statement over this map has been executed')
+        itref, gn, gs = its[m.term]
+        self._key_term(ks, k)
+        return V('(select (select %s %s) %s)' % (self.st.get(gn, gs), itref, k.term), 'Bool', 'bool')
 
     def b_off(self, args):
         """off(s): the offset of slice s in its backing array (with arr(s): where the slice starts)"""
